@@ -156,6 +156,9 @@ func WitnessPath(fn *ssa.Function, from ssa.Instruction, target, avoid func(ssa.
 	if from == nil {
 		work = append(work, item{fn.Blocks[0], 0})
 		visited[fn.Blocks[0]] = true
+	} else if bs, ok := from.(blockStart); ok {
+		work = append(work, item{bs.b, 0})
+		visited[bs.b] = true
 	} else {
 		work = append(work, item{from.Block(), instrIndex(from) + 1})
 	}
@@ -340,10 +343,16 @@ func desc(v ssa.Value, depth int) string {
 	case *ssa.Builtin:
 		return x.Name()
 	case *ssa.FieldAddr:
+		if a, ok := x.X.(*ssa.Alloc); ok {
+			return allocName(a) + "." + fieldName(x.X.Type(), x.Field)
+		}
 		return desc(x.X, depth+1) + "." + fieldName(x.X.Type(), x.Field)
 	case *ssa.Field:
 		return desc(x.X, depth+1) + "." + fieldName(x.X.Type(), x.Field)
 	case *ssa.IndexAddr:
+		if a, ok := x.X.(*ssa.Alloc); ok {
+			return allocName(a) + "[" + desc(x.Index, depth+1) + "]"
+		}
 		return desc(x.X, depth+1) + "[" + desc(x.Index, depth+1) + "]"
 	case *ssa.Index:
 		return desc(x.X, depth+1) + "[" + desc(x.Index, depth+1) + "]"
@@ -461,6 +470,27 @@ func singleStore(a *ssa.Alloc) ssa.Value {
 				val = s.Val
 			}
 		case *ssa.UnOp, *ssa.DebugRef:
+		case *ssa.FieldAddr, *ssa.IndexAddr:
+			if !readOnlyAddr(r.(ssa.Value), 0) {
+				return nil
+			}
+		case *ssa.MakeClosure:
+			// captured by reference: fine if the closure only loads it
+			fn := s.Fn.(*ssa.Function)
+			for i, b := range s.Bindings {
+				if b != ssa.Value(a) || i >= len(fn.FreeVars) {
+					continue
+				}
+				if refs := fn.FreeVars[i].Referrers(); refs != nil {
+					for _, fr := range *refs {
+						switch fr.(type) {
+						case *ssa.UnOp, *ssa.DebugRef:
+						default:
+							return nil
+						}
+					}
+				}
+			}
 		default:
 			return nil // address escapes / field addr etc.
 		}
@@ -695,4 +725,133 @@ func RetVals(r *ssa.Return) []ssa.Value {
 		}
 	}
 	return out
+}
+
+// blockStart is a pseudo-instruction used as the `from` of path queries to
+// start at the beginning of a block (e.g. one successor of a branch).
+type blockStart struct {
+	ssa.Instruction
+	b *ssa.BasicBlock
+}
+
+func (b blockStart) Block() *ssa.BasicBlock { return b.b }
+
+// AtBlock makes a path-query origin at the start of block b.
+func AtBlock(b *ssa.BasicBlock) ssa.Instruction { return blockStart{b: b} }
+
+// BranchOn finds the If in fn that tests `v <op> nil`-style condition whose
+// rendered atom (positive polarity) equals one of want; returns the
+// successor blocks (whenTrue, whenFalse).
+func BranchOn(fn *ssa.Function, want ...string) (iff *ssa.If, t, f *ssa.BasicBlock) {
+	for _, b := range fn.Blocks {
+		if len(b.Instrs) == 0 {
+			continue
+		}
+		i, ok := b.Instrs[len(b.Instrs)-1].(*ssa.If)
+		if !ok {
+			continue
+		}
+		pos := AtomString(Atom{i.Cond, true})
+		neg := AtomString(Atom{i.Cond, false})
+		for _, w := range want {
+			if pos == w {
+				return i, b.Succs[0], b.Succs[1]
+			}
+			if neg == w {
+				return i, b.Succs[1], b.Succs[0]
+			}
+		}
+	}
+	return nil, nil, nil
+}
+
+// PathConds returns the conditions under which block b executes as a DNF:
+// one conjunction (sorted atom strings) per way of entering b. For a block
+// with one predecessor this is its dominator guard set; for a join block
+// each incoming edge contributes its own conjunction (depth-limited; back
+// edges are ignored).
+func PathConds(b *ssa.BasicBlock) [][]string {
+	return pathConds(b, map[*ssa.BasicBlock]bool{}, 0)
+}
+
+func pathConds(b *ssa.BasicBlock, onPath map[*ssa.BasicBlock]bool, depth int) [][]string {
+	if len(b.Preds) == 0 {
+		return [][]string{{}}
+	}
+	if depth > 40 {
+		return [][]string{AtomStrings(GuardsOfBlock(b))}
+	}
+	onPath[b] = true
+	defer delete(onPath, b)
+	var out [][]string
+	seen := map[string]bool{}
+	for _, p := range b.Preds {
+		if onPath[p] || b.Dominates(p) {
+			continue // back edge
+		}
+		var edge []string
+		if len(p.Instrs) > 0 {
+			if iff, ok := p.Instrs[len(p.Instrs)-1].(*ssa.If); ok && p.Succs[0] != p.Succs[1] {
+				edge = append(edge, AtomString(Atom{iff.Cond, p.Succs[0] == b}))
+			}
+		}
+		for _, conj := range pathConds(p, onPath, depth+1) {
+			c := append(append([]string{}, conj...), edge...)
+			sort.Strings(c)
+			k := strings.Join(c, " && ")
+			if !seen[k] {
+				seen[k] = true
+				out = append(out, c)
+			}
+		}
+		if len(out) > 256 {
+			return [][]string{AtomStrings(GuardsOfBlock(b))}
+		}
+	}
+	if len(out) == 0 {
+		return [][]string{AtomStrings(GuardsOfBlock(b))}
+	}
+	return out
+}
+
+// AllDisjunctsHave reports whether every conjunction of the DNF contains an
+// atom accepted by pred; returns a counter-example conjunction otherwise.
+func AllDisjunctsHave(dnf [][]string, pred func(string) bool) (bool, []string) {
+	for _, conj := range dnf {
+		ok := false
+		for _, a := range conj {
+			if pred(a) {
+				ok = true
+				break
+			}
+		}
+		if !ok {
+			return false, conj
+		}
+	}
+	return true, nil
+}
+
+// readOnlyAddr: the derived address is only loaded from (possibly through
+// further field/index steps), never stored to or passed on.
+func readOnlyAddr(v ssa.Value, depth int) bool {
+	if depth > 6 || v.Referrers() == nil {
+		return depth <= 6
+	}
+	for _, r := range *v.Referrers() {
+		switch x := r.(type) {
+		case *ssa.UnOp, *ssa.DebugRef:
+		case *ssa.FieldAddr:
+			if !readOnlyAddr(x, depth+1) {
+				return false
+			}
+		case *ssa.IndexAddr:
+			if !readOnlyAddr(x, depth+1) {
+				return false
+			}
+		default:
+			return false
+		}
+	}
+	return true
 }
